@@ -16,6 +16,14 @@ package pubsub
 //@   ensures same-messages: result.RPC.Publish == msgs
 //@   ensures nothing-else: result.RPC.Control == nil && len(result.RPC.Subscriptions) == 0
 
+// rpcWithControl wraps exactly the given messages and control entries in a fresh RPC.
+//@ func rpcWithControl
+//@   property C12 C17
+//@   modifies nothing
+//@   ensures fresh: result != nil && fresh(result) && result.RPC.Control != nil && fresh(result.RPC.Control)
+//@   ensures contents: result.RPC.Publish == msgs && result.RPC.Control.Ihave == ihave && result.RPC.Control.Iwant == iwant && result.RPC.Control.Graft == graft &&
+//@        result.RPC.Control.Prune == prune && result.RPC.Control.Idontwant == idontwant
+
 //@ func rpcWithSubs
 //@   property C05
 //@   modifies nothing
